@@ -131,3 +131,29 @@ def ordered_stmts(body) -> List[ast.stmt]:
             for h in s.handlers:
                 out.extend(ordered_stmts(h.body))
     return out
+
+
+def fresh_default_insts(ctx, rid: str) -> List[R.Inst]:
+    """Every chart instance must get its own list objects: the ``objs`` default factory has to construct them per call.
+    A ``**MODULE_LEVEL_DICT`` of instances hands the same lists to every chart; the generated chart setters assign
+    ``.df`` into them in place, so reading a second chart overwrites the first one's lists."""
+    M = ctx.M
+    out = []
+    for c in concrete_classes(M, "chart"):
+        M.map_slots(c)
+        cls = M.cls(c)
+        file = M.mods[cls.mod].rel
+        shared = []
+        for k in M.mro(c):
+            shared.extend(M.shared_default_slots.get(k, []))
+        key = f"{c.rsplit('.', 1)[1]}:fresh-lists"
+        if shared:
+            names = sorted({s[0] for s in shared})
+            out.append(R.viol(rid, key, file, shared[0][2],
+                              f"lists {names} of every {c.rsplit('.', 1)[1]} come from the module-level dict '{shared[0][1]}': all "
+                              f"charts share these list objects, and the chart setters write '.df' into them in place — the last "
+                              f"chart read or converted overwrites those lists of all earlier ones",
+                              construct=f"{c.rsplit('.', 1)[1]}.objs default shares {names}"))
+        else:
+            out.append(R.ok(rid, key, file, cls.node.lineno, idiom="default_factory constructs every list per instance"))
+    return out
